@@ -85,6 +85,7 @@ fn run(op: &Value) -> Value {
                 "json_server": f(conjure_serde::json::server_from_str::<SafeLong>(&text).ok()),
                 "json_key": f(conjure_serde::json::client_from_str::<std::collections::BTreeMap<SafeLong, bool>>(&format!("{{\"{}\":true}}", text)).ok().and_then(|m| m.keys().next().copied())),
                 "any": f(conjure_serde::json::client_from_str::<conjure_object::Any>(&text).ok().and_then(|a| a.deserialize_into::<SafeLong>().ok())),
+                "any_key": f(conjure_serde::json::client_from_str::<conjure_object::Any>(&format!("{{\"{}\":true}}", text)).ok().and_then(|a| a.deserialize_into::<std::collections::BTreeMap<SafeLong, bool>>().ok()).and_then(|m| m.keys().next().copied())),
             })
         }
         "bearer" => {
